@@ -1413,16 +1413,21 @@ NiShape* NifFile::CloneShape(NiShape* srcShape, const std::string& destShapeName
 				}
 			}
 
-			// Recurse children
-			for (auto& child : srcNode->childRefs) {
-				auto childNode = srcNif->hdr.GetBlock<NiNode>(child);
+			// Recurse children (over a copy of the indices: when source and destination are the same file,
+			// re-parenting a node found by name can modify the child list that is being walked)
+			std::vector<uint32_t> childIndices;
+			srcNode->childRefs.GetIndices(childIndices);
+			for (auto& childIndex : childIndices) {
+				auto childNode = srcNif->hdr.GetBlock<NiNode>(childIndex);
 				if (childNode)
 					cloneNodes(childNode);
 			}
 		};
 
-		for (auto& child : srcRootNode->childRefs) {
-			auto srcChildNode = srcNif->hdr.GetBlock<NiNode>(child);
+		std::vector<uint32_t> rootChildIndices;
+		srcRootNode->childRefs.GetIndices(rootChildIndices);
+		for (auto& childIndex : rootChildIndices) {
+			auto srcChildNode = srcNif->hdr.GetBlock<NiNode>(childIndex);
 			if (srcChildNode)
 				cloneNodes(srcChildNode);
 		}
